@@ -307,6 +307,58 @@ def gen_selection_cases(ctx):
         pop = rand_population(r, rand_pool(r, r.randint(1, n), multi), n, r.choice([0.0, 0.2, 0.5]))
         cases.append({'op': 'sel', 't': r.choice(CUSTOM), 'multi': multi, 'default': r.randint(1, 15),
                       'ps': r.choice([0, r.randint(1, 15)]), 'pop': pop, 'seed': r.randrange(10 ** 6), 'ex': False})
+    cases.extend(gen_near_tie_cases(ctx, len(cases)))
+    return cases
+
+
+# objective values that are equal only up to rounding (one or a few ulps apart, or within 1e-10 of zero) next to
+# clearly separated ones.  Every one of them is an exact dyadic rational and goes to Coq as such (c_Q prints
+# Fraction(x)); python compares binary64 values exactly, so domination on them is the exact order of the model.
+NEAR_VALUES = [0.3, 0.1 + 0.2, 0.7, 0.1 * 7, 1.0, 1.0 + 2.0 ** -52, 1.0 - 2.0 ** -53, 0.0, 1e-12, 2.0 ** -40,
+               0.05, 0.5, 0.6, 2.0, 2.0 + 2.0 ** -51, 3.0, 5.0]
+NEAR_PAIRS = [(0.3, 0.1 + 0.2), (0.7, 0.1 * 7), (1.0, 1.0 + 2.0 ** -52), (1.0 - 2.0 ** -53, 1.0), (0.0, 1e-12),
+              (0.0, 2.0 ** -40), (2.0, 2.0 + 2.0 ** -51)]
+
+
+def _true_front_size(pop):
+    vals = {d[0]: (d[1][1], d[1][2]) for d in pop}
+
+    def dom(a, b):
+        return all(x <= y for x, y in zip(a, b)) and a != b
+    return sum(1 for u, v in vals.items() if not any(dom(w, v) for w in vals.values()))
+
+
+def gen_near_tie_cases(ctx, seed0):
+    """SPEA-2 on two-objective populations whose members differ on an objective by a rounding margin only
+    (0.3 vs 0.1 + 0.2): the one that is better by an ulp and worse elsewhere is non-dominated and has to be kept.
+    Own random stream (the other groups keep their cases)."""
+    r = random.Random(1600 + 7919 * int(ctx.seed))
+    cases = []
+
+    def add(pop, ps):
+        cases.append({'op': 'sel', 't': 'spea2', 'multi': True, 'default': max(1, ps), 'ps': ps, 'pop': pop,
+                      'seed': seed0 + len(cases), 'ex': False, 'near': True})
+    # the pattern itself: a better by an ulp on objective 0 and worse on objective 1 than b; b dominates more
+    # individuals than the dominator of some truly dominated one; request = size of the true front
+    for lo, hi in NEAR_PAIRS:
+        for swap in (False, True):
+            a, b = ['M', lo, 2.0], ['M', hi, 1.0]
+            rest = [['M', lo - 1.0, 5.0], ['M', lo - 0.95, 6.0], ['M', hi + 0.2, 3.0], ['M', hi + 0.3, 4.0]]
+            if swap:
+                a, b = ['M', 2.0, lo], ['M', 1.0, hi]
+                rest = [['M', f[2], f[1]] for f in rest]
+            for order in ([0, 1, 2, 3, 4, 5], [1, 0, 2, 3, 4, 5], [5, 4, 3, 2, 1, 0], [3, 4, 0, 5, 1, 2]):
+                fits = [a, b] + rest
+                pop = [[k, list(fits[k]), 0] for k in order]
+                add(pop, _true_front_size(pop))
+    for k in range(ctx.budget(400, 4000)):
+        n = r.randint(3, 12)
+        alphabet = r.sample(NEAR_VALUES, r.randint(3, 7)) if r.random() < 0.5 else NEAR_VALUES
+        pool = [[u, ['M', r.choice(alphabet), r.choice(alphabet)]] for u in range(r.randint(2, n))]
+        pop = rand_population(r, pool, n, r.choice([0.0, 0.0, 0.2]))
+        front = _true_front_size(pop)
+        ps = r.choice([front, front, front, front + 1, max(1, front - 1), r.randint(1, n)])
+        add(pop, ps)
     return cases
 
 
@@ -349,7 +401,8 @@ def eval_selection(ctx, cases, group='selection', given=None, canary_ok=True):
                   nontrivial=distinct > eff, type=c['t'], multi=c['multi'],
                   branch=('single' if distinct == 1 else 'pass-through' if distinct <= eff else 'selected'),
                   repeats=distinct < len(c['pop']), pop_size=min(eff, 16),
-                  population=('21..120' if len(c['pop']) > 20 else '1..20'))
+                  population=('21..120' if len(c['pop']) > 20 else '1..20'),
+                  values=('near-ties' if c.get('near') else 'dyadic alphabet'))
         if not ho:
             ctx.violate(group, rec, 'selection output violates the C16 selection clauses '
                                     '(subset / no repeats / size / single replication / SPEA-2 front kept)')
